@@ -126,7 +126,9 @@ class Facts:
         self.generic_prefix = generic_prefix
         self.distinct = set(distinct)
         self.tests = []
+        self.pin = {}                       # symbol -> constant it is taken to be when a comparison is decided (a world: the first send, j = 1)
         self.lost = []                      # calls whose effects on the arrays could not be followed: the evaluation must not be used
+        self.crashes = []                   # (message, statement): a name read on the path taken that nothing has bound (NameError / UnboundLocalError)
 
     def is_generic(self, name):
         return name in self.generic or (self.generic_prefix is not None and name.startswith(self.generic_prefix))
@@ -166,6 +168,8 @@ def _atom_syms(a, out):
 
 
 def _sign(v, facts):
+    if facts.pin and not v.is_const():
+        v = v.subs(facts.pin)
     if v.is_const():
         c = v.const_value()
         return "+" if c > 0 else ("-" if c < 0 else "0")
@@ -192,6 +196,10 @@ def _equal3(a, b, facts):
     if a.equals(b):
         return True
     d = a - b
+    if facts.pin and not d.is_const():
+        d = d.subs(facts.pin)
+        if d.is_zero():
+            return True
     if d.is_const():
         return False
     if (facts.generic or facts.generic_prefix) and any(facts.is_generic(s_) for s_ in free_syms(d)):
@@ -491,7 +499,33 @@ class GenEval(AutoEvaluator):
                     return F.sym("False" if isinstance(node.ops[0], (ast.Is, ast.Eq)) else "True")
         if isinstance(node, (ast.ListComp, ast.GeneratorExp)):
             return self._comprehension(node)
-        if isinstance(node, (ast.Compare, ast.BoolOp)) or (isinstance(node, ast.UnaryOp) and isinstance(node.op, ast.Not)):
+        if isinstance(node, ast.BoolOp):
+            # operands left to right; evaluation stops where Python stops, and is speculative once an operand is undecided
+            vals, spec = [], 0
+            try:
+                for x in node.values:
+                    v = self.ev(x)
+                    t = truth(v, self.facts)
+                    if (t is False and isinstance(node.op, ast.And)) or (t is True and isinstance(node.op, ast.Or)):
+                        if not vals:
+                            return v
+                        vals.append(v)
+                        break
+                    if t is None:
+                        self.speculative += 1
+                        spec += 1
+                        vals.append(v)
+                    # a decided operand that does not stop the evaluation does not change the value of the whole
+                if not vals:
+                    return v
+                if len(vals) == 1 and spec == 0:
+                    return vals[0]
+            finally:
+                self.speculative -= spec
+            if any(is_unknown(v) or not isinstance(v, F.Rat) for v in vals):
+                return next((v for v in vals if is_unknown(v)), Unknown("bool of objects"))
+            return F.fn("bool:" + type(node.op).__name__, *[need(v) for v in vals]) if len(vals) > 1 else vals[0]
+        if isinstance(node, ast.Compare) or (isinstance(node, ast.UnaryOp) and isinstance(node.op, ast.Not)):
             v = super()._ev(node)
             if isinstance(v, F.Rat) and not v.is_const():
                 # a test the configuration decides is the constant it evaluates to (`first_order = self.order == 1` used as an index or a key);
@@ -531,14 +565,23 @@ class GenEval(AutoEvaluator):
             return self.env[nm]
         if nm in self.locals_:
             # a local that no statement on this path has bound: reading it is an UnboundLocalError, not a symbol of its own
+            self._crash(f"local `{nm}` is not bound on this path")
             return Unknown(f"local `{nm}` is not bound on this path")
         if self.rel is not None:
             c = self.consts.get(self.rel, nm)
             if c is not None:
                 return c
         if nm not in self.params_ and not self._is_global(nm):
+            self._crash(f"name `{nm}` is not defined")
             return Unknown(f"name `{nm}` is not defined")       # NameError at run time - never a symbol that may coincide with an expected one
         return F.sym(nm)
+
+    speculative = 0         # > 0 while evaluating something Python might not evaluate (operands after an undecided short-circuit)
+    cur_stmt = None
+
+    def _crash(self, msg):
+        if not self.speculative and not any(m == msg for m, _ in self.facts.crashes):
+            self.facts.crashes.append((msg, self.cur_stmt))
 
     def _is_global(self, nm):
         import builtins
@@ -1064,6 +1107,11 @@ class GenEval(AutoEvaluator):
             v = self.ev(args[0])
             if isinstance(v, tuple):
                 return v
+        cdef = self._class_def(name) if isinstance(node.func, ast.Name) and name not in self.env else None
+        if cdef is not None:
+            r = self._instantiate(cdef, node)
+            if r is not NotImplemented:
+                return r
         if name is not None and name.split(".")[-1] == "SimpleNamespace" and not args and all(k.arg is not None for k in node.keywords):
             self._record_call(node)
             return self._new_namespace({k: self.ev(x) for k, x in kw.items()}, node)
@@ -1083,6 +1131,10 @@ class GenEval(AutoEvaluator):
                 return g
             if name.split(".")[-1] == "itemgetter" and args and not kw and not any(isinstance(a, ast.Starred) for a in args):
                 return Getter("index", [self.ev(a) for a in args])
+            if name.split(".")[-1] == "attrgetter" and args and not kw and not any(isinstance(a, ast.Starred) for a in args):
+                keys = [strconst(self.ev(a)) for a in args]          # names computed from constants: attrgetter("Bp" if velo else "B")
+                if all(k is not None for k in keys):
+                    return Getter("attr", keys)
         if meth in ("append", "extend", "insert") and isinstance(node.func.value, ast.Name) and isinstance(self.env.get(node.func.value.id), tuple) \
                 and not kw and not any(isinstance(a, ast.Starred) for a in args):
             lst, nm_ = self.env[node.func.value.id], node.func.value.id
@@ -1235,6 +1287,55 @@ class GenEval(AutoEvaluator):
             return True
         u = sem.unfn(v)
         return u is not None and u[0] == "ref" and not isinstance(u[1][0], str) and self.tracked(u[1][0])
+
+    # ---- small record classes of the module (a dataclass, or a class whose __init__ only stores its arguments): objects with identity
+    def _class_def(self, name):
+        m = getattr(self.fn, "_vmod", None)
+        if m is None or name is None:
+            return None
+        for st in m.tree.body:
+            if isinstance(st, ast.ClassDef) and st.name == name:
+                return st
+        return None
+
+    def _instantiate(self, cdef, node):
+        av = self._argvals(node)
+        if av is None or cdef.bases and any(dotted(b) not in ("object",) for b in cdef.bases):
+            return NotImplemented
+        init = next((x for x in cdef.body if isinstance(x, ast.FunctionDef) and x.name == "__init__"), None)
+        is_dc = any((dotted(d) or dotted(getattr(d, "func", None)) or "").split(".")[-1] == "dataclass" for d in cdef.decorator_list)
+        obj = self._new_obj("namespace")
+        if init is not None:
+            env = self._bind(init, [F.sym(obj)] + list(av[0]), av[1], False, self)
+            if env is None or _has_yield(init):
+                return NotImplemented
+            for k, v in self.env.items():
+                if k.startswith(HEAP):
+                    env[k] = v
+            sub = self._sub(init, env, strict=True)
+            self.trace.append(("enter", node, init))
+            sub.run(init.body)
+            self._merge(sub)
+            self.trace.append(("exit", node, init))
+            for k, v in sub.env.items():
+                if k.startswith(HEAP):
+                    self.env[k] = v
+            return F.sym(obj)
+        if is_dc:
+            fields = [(x.target.id, x.value) for x in cdef.body if isinstance(x, ast.AnnAssign) and isinstance(x.target, ast.Name)]
+            names = [f for f, _ in fields]
+            if len(av[0]) > len(names) or any(k not in names for k in av[1]):
+                return NotImplemented
+            vals = dict(zip(names, av[0]))
+            vals.update(av[1])
+            for f, dflt in fields:
+                if f not in vals:
+                    if dflt is None:
+                        return NotImplemented
+                    vals[f] = self.ev(dflt)
+                self.env[f"{obj}.{f}"] = vals[f]
+            return F.sym(obj)
+        return NotImplemented
 
     def _arith(self, op, a, b):
         if is_unknown(a):
@@ -1552,6 +1653,7 @@ class GenEval(AutoEvaluator):
     def stmt(self, st):
         if self.done or self.iter_done:
             return
+        self.cur_stmt = st
         if isinstance(st, ast.While):
             return self._while(st)
         if isinstance(st, ast.For):
@@ -1609,7 +1711,16 @@ class GenEval(AutoEvaluator):
             self.trace.append(("stmt", st))
             return
         if isinstance(st, (ast.With,)):
+            for it in st.items:
+                v = self.ev(it.context_expr)
+                if it.optional_vars is not None:
+                    self._assign(it.optional_vars, v if isinstance(v, F.Rat) else Unknown("context manager"), st)
             self.run(st.body)
+            return
+        if isinstance(st, (ast.Import, ast.ImportFrom)):
+            for al in st.names:
+                nm = (al.asname or al.name).split(".")[0]
+                self.env.setdefault(nm, F.sym(nm))
             return
         if isinstance(st, ast.Try):
             # the path without an exception: accepted inputs raise nothing (the handlers are not followed)
@@ -1624,6 +1735,12 @@ class GenEval(AutoEvaluator):
             self.env[st.name] = Closure(st, self)
             return
         if isinstance(st, (ast.Assign, ast.AugAssign, ast.AnnAssign, ast.Return)):
+            if isinstance(st, ast.AugAssign) and isinstance(st.target, ast.Name):
+                cur = self.env.get(st.target.id)
+                if isinstance(cur, F.Rat) and not cur.is_const():
+                    # `frc = state[0]; frc += x` updates an array inside `state` in place but leaves a number there alone: what `state[0]` holds
+                    # afterwards is not known to the engine (until `state` is rebuilt): reading it is an analysis error, never a verdict
+                    self._poison_aliases(cur, st.target.id, Unknown(f"`{ast.unparse(st)[:50]}` may have updated this object in place through another name"))
             Evaluator.stmt(self, st)
             self.trace.append(("stmt", st))
             return
@@ -1661,6 +1778,20 @@ class GenEval(AutoEvaluator):
         self.trace.append(("loop", st))
         self.run(st.body)
         self.done = True          # the loop never ends: nothing after it is reachable
+
+    def _poison_aliases(self, v, name, unk):
+        def repl(x):
+            if isinstance(x, tuple):
+                y = tuple(unk if e is v else repl(e) for e in x)
+                return y if any(a is not b for a, b in zip(x, y)) else x
+            return x
+        for k, x in list(self.env.items()):
+            if k == name:
+                continue
+            if k.startswith(HEAP) and x is v:
+                self.env[k] = unk
+            elif isinstance(x, tuple):
+                self.env[k] = repl(x)
 
     def _carry(self, slot, init, bound):
         """the value a carried slot starts the iteration with: what an earlier send left there.  A tuple is carried component by component."""
